@@ -41,7 +41,7 @@ def rank_isomorphism(prog: Program, roles, n: int) -> List[Tuple[str, str, str, 
             if tseq is None:
                 out.append((desc, "UNDECIDED", "the abstract game cannot be spelled out position by position", None))
                 continue
-            game = I.new_list(w.state, list(tseq.fixed), roles.model.node)
+            game = I.new_list(w.state, list(tseq.fixed), roles.model.node, "game")
             vals = [Num(kinds=frozenset({"int", "float"}), rng=None, sym=("param", f"rankiso.v{i}"), prov=frozenset({"RANKRAW"})) for i in range(n)]
             # relations between all pairs, from the adjacent ones (transitive closure of a non-decreasing chain)
             level = [0]
@@ -50,7 +50,7 @@ def rank_isomorphism(prog: Program, roles, n: int) -> List[Tuple[str, str, str, 
             for i in range(n):
                 for j in range(i + 1, n):
                     w.state.rel_set(vals[i].sym, vals[j].sym, frozenset({"LT" if level[i] < level[j] else "EQ"}))
-            ranks = I.new_list(w.state, vals, roles.model.node)
+            ranks = I.new_list(w.state, vals, roles.model.node, "ranksarg")
             I.events.clear()
             I.raises.clear()
             res = w.call(m, ANCHOR, [game, ranks])
